@@ -18,13 +18,28 @@ ItemSpaces (through .itemspaces, recursively) and the validity of every space / 
 About one case in ten uses a vocabulary outside Dyn/Model.v (a parameter formula that calls a cells of a static
 space, so that the ItemSpace hangs below that cells in the trace graph); those go through the differential (P) only.
 
-Known defects of the tree (triggers avoided by the generator, see dynlib.py; witnesses
-corpus/C07/finding_*.json replayed through the same (P) oracle): D38 (parameter-formula change), D39 (deleted
-foreign base).  D14 D15 D16 D18 are repaired in /repo (ledger: fixed); their witnesses keep running and a
+INHERITANCE class (generator dyninh.py, differential (P) only; 160 cases quick / 1800 thorough, from a generator of
+their own seeded from the run's rng after the model-tied cases, which are therefore unchanged): static spaces that
+inherit from other static spaces (new_space(bases=...), add_bases, remove_bases), references and cells defined in the
+base and derived in the sub space, sub spaces holding references only, such spaces replicated as child spaces into
+ItemSpaces or chosen as 'base' by parameter formulas, and histories that change / create / delete the references and
+cells ON THE BASE after instances were built and handles kept.  Every evaluation and every reference read through a
+kept handle, and in `audit` operations every member (references by attribute and through .refs, every cells, the
+dynamic child spaces, recursively) of every kept valid handle and of every instance requested again, must equal the
+same member of the same instance of a fresh model of the current definitions; a kept handle may instead raise the
+deleted-object error; a valid kept handle must be the very object the repeated request returns.
+
+Known defects of the tree (triggers avoided by the generator, see dynlib.py / dyninh.py; witnesses
+corpus/C07/finding_*.json replayed through the same (P) oracle): D38 (parameter-formula change), D41 / D41b (the derived
+references of a static space that sees no cells are deleted or re-derived: reference deleted in its base, base space
+deleted, remove_bases, add_bases; live copies of the space stay as they were), D39 (deleted foreign base; repaired).
+The inheritance generator also stays clear of the static-inheritance findings D1 / D2 / D2b of C03 (new_cells /
+formula assignment in a base when a sub space gets the cells from another definer).  D14 D15 D16 D18 are repaired in /repo (ledger: fixed); their witnesses keep running and a
 failure of one of them is a (P) failure."""
-import os, json, glob, collections
+import os, json, glob, collections, random
 import fw
 import dynlib
+import dyninh
 from fw import Outcome
 
 EXTRA_MODS = ["Dyn.Tie"]
@@ -35,8 +50,11 @@ TRUSTED = ["CPython inspect.Signature.bind/apply_defaults is modelled by Dyn.Mod
            "value caching inside an instance follows Exec (C01/C06)"]
 ASSUMPTIONS = ["formulas are over the generated expression language (ints, names, + - *, conditional, sibling calls, child-space calls); "
                "parameter formulas depend on their arguments only and call no cells",
-               "ItemSpaces are requested from outside formulas; reference values are ints; no inheritance between static spaces",
-               "triggers of the recorded defects D38 D39 are avoided by the generator (dynlib.py doc)"]
+               "ItemSpaces are requested from outside formulas; reference values are ints; inheritance between static spaces "
+               "(cells and references; bases of lower rank only, no cycles) occurs in the inheritance class only, which is "
+               "checked differentially (live model vs fresh model of the current definitions), not against Dyn/Model.v",
+               "triggers of the recorded defects D38 D41 D41b (and of C03's D1 D2 D2b) are avoided by the generators "
+               "(dynlib.py / dyninh.py doc)"]
 
 CASE_TYPE = "tie_case"
 
@@ -80,6 +98,9 @@ def oracle(case, r):
                     f.append("op %d %s: identity: the object returned is identical to handles %s, "
                              "handles with the same key are %s" % (n, json.dumps(op), st["same"], want))
             recipes.append(new)
+        for rec, what, _, a, b in st.get("audit") or []:
+            f.append("op %d audit: %s %s serves %s, a fresh model of the current definitions gives %s"
+                     % (n, json.dumps(rec), what, json.dumps(a), json.dumps(b)))
     for rec, cname, args, a, b in r.get("sweep", []):
         if a != b:
             f.append("final sweep: %s.%s%s serves %s, a fresh model of the current definitions gives %s"
@@ -91,8 +112,8 @@ def focus(case, r):
     """does the case exercise the property's focus: an edit met by a kept handle that is evaluated afterwards,
     or the same instance requested through two spellings"""
     kinds = [o["op"] for o in case["ops"]]
-    edits = [i for i, k in enumerate(kinds) if k not in ("getitem", "eval", "child", "takecells")]
-    ev_after = any(k == "eval" and edits and i > edits[0] and r["steps"][i]["out"][0] in ("val", "deleted")
+    edits = [i for i, k in enumerate(kinds) if k not in ("getitem", "eval", "child", "takecells", "getref", "audit")]
+    ev_after = any(k in ("eval", "getref") and edits and i > edits[0] and r["steps"][i]["out"][0] in ("val", "deleted")
                    for i, k in enumerate(kinds))
     same = any(st.get("same") for st in r.get("steps", []))
     return ev_after or same
@@ -119,6 +140,18 @@ def run(tier, seed, rng):
         seen.add(k)
         c["id"] = "g%d" % i
         precautions += c.get("precautions", 0)
+        cases.append(c)
+    # inheritance class ((P) only): its own generator, seeded after the model-tied cases were drawn
+    rng_inh = random.Random(rng.getrandbits(64))
+    inh_feat, inh_kinds, inh_avoided = collections.Counter(), collections.Counter(), collections.Counter()
+    for i in range(160 if tier == "quick" else 1800):
+        c = dyninh.gen_case(rng_inh)
+        k = dynlib.canon(c)
+        if k in seen:
+            continue
+        seen.add(k)
+        c["id"] = "h%d" % i
+        inh_feat.update(dyninh.features(c)); inh_kinds.update(c["kinds"]); inh_avoided.update(c["avoided"])
         cases.append(c)
     res = fw.run_driver("dyn", cases, chunk=25 if tier == "quick" else 60)
     # ---- (P)
@@ -178,14 +211,43 @@ def run(tier, seed, rng):
     out.rule = ("distinct after canonicalising (definitions, operations) as JSON; counted when a kept handle is evaluated "
                 "after an edit of the definitions or one instance is requested through two spellings")
     out.samples = [{"defs": c["defs"], "ops": c["ops"]} for c in cases if not c.get("witness") and "defs" in c][:2]
+    inh = [(c, r) for c, r in zip(cases, res) if c.get("inh") and not c.get("witness")]
     out.distribution = {"cases": len(cases), "witnesses": len(witnesses), "regressions": len(regress),
                         "differential_only_cases": sum(1 for c in cases if c.get("ponly")),
+                        "inheritance_cases": {
+                            "cases": len(inh),
+                            "worlds_with": dict(inh_feat),
+                            "edits": dict(inh_kinds),
+                            "audits": sum(1 for c, _ in inh for o in c["ops"] if o["op"] == "audit") + len(inh),
+                            "members_compared_with_the_fresh_model": sum(r.get("audited_members", 0) for _, r in inh),
+                            "reads_through_kept_handles_after_an_edit": sum(reads_after_edit(c, r) for c, r in inh),
+                            "avoided": dict(inh_avoided)},
                         "operations": dict(dist), "outputs": dict(outs),
                         "precautions_before_unpropagated_edits": precautions,
                         "edits_meeting_live_copies": dict(met)}
     out.notes.append("generator avoids the triggers of D38 (setparams on a child space / foreign base) and D39 (delspace of a "
                      "space named as 'base'): %d edits were preceded by clear_items on every parametrised space" % precautions)
+    out.notes.append("inheritance class: %d edits that delete or re-derive the derived references of a static space seeing no "
+                     "cells were preceded by clear_items (finding D41/D41b); %d formula assignments below another definer "
+                     "were not generated (C03 D2)" % (inh_avoided["D41_edit_preceded_by_clear_items"],
+                                                      inh_avoided["D2_C03_setformula_below_an_override"]))
     return out
+
+
+def reads_after_edit(case, r):
+    """evaluations / reference reads through a handle that was obtained BEFORE the latest edit and is still served
+    (a value or the deleted-object error)"""
+    n, last_edit, born = 0, -1, []
+    for i, (o, st) in enumerate(zip(case["ops"], r.get("steps", []))):
+        k = o["op"]
+        if k in ("getitem", "child"):
+            born.append(i)
+        elif k in ("eval", "getref"):
+            if o["h"] < len(born) and born[o["h"]] < last_edit and st["out"][0] in ("val", "deleted", "fail"):
+                n += 1
+        elif k not in ("takecells", "audit"):
+            last_edit = i
+    return n
 
 
 def replay(data):
